@@ -185,6 +185,33 @@ def r14_3(prog, out):
         t = bi.call_at(sp[0].bb)
         s = sl.of(bid, t.args[-1])
         from_registry = any(c.startswith(A.ty("PushRegistry") + "::") for c in s.calls) or reg in s.fields
+        # .. read in THIS round: the collection the round iterates over may not be carried over from an earlier iteration of
+        # the push loop (a copy kept "until the registry changes" pushes to subscriptions that were deleted or re-created since)
+        stale = None
+        outer = sorted(bi.cfg.in_loop(sp[0].bb), key=lambda h: -len(bi.cfg.loops()[h]))
+        if outer:
+            h0 = outer[0]
+            lb = bi.cfg.loops()[h0]
+            for nbb, nt in bi.calls(lambda c: c.path == "std::iter::Iterator::next"):
+                if nbb not in lb or not nt.args or (bid, nbb) not in s.sites:
+                    continue
+                o = bi.trace(nt.args[0])
+                # step through the iterator construction to the collection
+                for _ in range(4):
+                    if o.kind == "call" and bi.call_at(o.data).callee is not None and bi.call_at(o.data).callee.path.split("::")[-1] in (
+                            "into_iter", "iter", "iter_mut", "by_ref", "drain") and bi.call_at(o.data).args:
+                        o = bi.trace(bi.call_at(o.data).args[0])
+                    else:
+                        break
+                if o.kind == "local" and isinstance(o.data, int) and not o.path:
+                    defs = bi.defs.get(o.data, [])
+                    outside = [d for d in defs if d[0] not in lb]
+                    inside = {d[0] for d in defs if d[0] in lb}
+                    if outside and bi.cfg.path(h0, {nbb}, avoid=inside) is not None:
+                        stale = (nbb, o.data)
+        if stale is not None:
+            out.violation(key + ":fresh", bi.loc(stale[0]), "the push round iterates over a collection that is carried over from earlier rounds and only refreshed on some "
+                          "paths (`%s`): a subscription that was deleted, or re-created without a push endpoint, is still POSTed to" % (bi.body.local_name(stale[1]) or "_%d" % stale[1]))
         if any(c.endswith("SubscriptionManager::get_subscription") for c in s.calls) and from_registry:
             out.holds(key, bi.loc(sp[0].bb), "each dispatch task is built from a registry entry and a manager lookup of that name")
         else:
@@ -294,6 +321,7 @@ def r14_4(prog, out):
                 out.violation(key, bi.loc(bb), "a dispatch is started although the subscription lookup failed")
 
 
+@rule("C09", "R14.5", "push payload: base64 data, message id, attributes and the subscription's name", floor=5)
 @rule("C14", "R14.5", "push payload: base64 data, message id, attributes and the subscription's name", floor=5)
 def r14_5(prog, out):
     A = prog.anchors
